@@ -42,9 +42,9 @@ def _config(md, tier, varying_section=False):
     nmax = 12 if tier == "quick" else 24
     smooth = st.booleans()
 
-    def build(me, rough, num_r, num_s, st_r, st_s, fl, bc):
-        return dict(mesh=me, num=(num_r if rough else num_s), state=(st_r if rough else st_s), flux=fl, bcL=bc[0], bcR=bc[1])
-    return st.builds(build, gen.mesh_any_or_big(1, nmax), smooth, gen.num_robust(), gen.num_any(),
+    def build(reuse, me, rough, num_r, num_s, st_r, st_s, fl, bc):
+        return dict(mesh=me, num=(num_r if rough else num_s), state=(st_r if rough else st_s), flux=fl, bcL=bc[0], bcR=bc[1], reuse_model=reuse)
+    return st.builds(build, st.booleans(), gen.mesh_any_or_big(1, nmax), smooth, gen.num_robust(), gen.num_any(),
                      gen.state_for(md, True, lnrange=1.5, machmax=2.0), gen.state_for(md, False, lnrange=1.0, machmax=1.5, smooth_amp=0.05),
                      st.sampled_from(cases.flux_names(md if md["name"] != "nozzle" else dict(name="euler1d"))), _bcpair(md))
 
@@ -63,12 +63,24 @@ def strat_nozzle(tier):
         lambda cfg, sc, st2: dict(cfg, model=md, scaleA=sc, state2=st2), _config(md, tier), gen.logf(-2, 2), gen.state_euler(False, lnrange=1.0, machmax=1.5, smooth_amp=0.05)))
 
 
-def _operator(md, case, source):
+def _operator(md, case, source, reuse=False):
     mdd = dict(md)
     if source is not None:
         mdd["source"] = source
     model = cases.build_model(mdd)
     mesh = cases.build_mesh(case["mesh"])
+    if reuse:
+        # the model object has already served another computation: an operator on a DIFFERENT mesh with the same number of cells and the same end
+        # faces (another cell distribution) was built with it and evaluated once before the operator under test is built
+        xf = np.asarray(mesh.xf, dtype=float)
+        s_ = np.linspace(0.0, 1.0, len(xf))
+        xd = xf[0] + (xf[-1] - xf[0]) * (s_ + 0.3 * s_ * (1.0 - s_))
+        xd[0], xd[-1] = xf[0], xf[-1]
+        if np.all(np.diff(xd) > 0):
+            decoy = cases.mesh_from_faces(xd)
+            discD = cases.build_disc(model, decoy, case["num"], case["flux"], cases.bc_clean(case["bcL"]), cases.bc_clean(case["bcR"]))
+            primD, _x = _prim(md, case, decoy)
+            _rhs(discD, model, decoy, md, primD)
     disc = cases.build_disc(model, mesh, case["num"], case["flux"], cases.bc_clean(case["bcL"]), cases.bc_clean(case["bcR"]))
     return model, mesh, disc
 
@@ -93,7 +105,7 @@ def check_sources(case):
     r0, q = _rhs(disc0, model0, mesh0, md, prim)
     if not all(np.all(np.isfinite(x)) for x in r0):
         sim.nonfinite_operator(case["num"])
-    model1, mesh1, disc1 = _operator(md, case, src)
+    model1, mesh1, disc1 = _operator(md, case, src, reuse=case.get("reuse_model", False))
     r1, _ = _rhs(disc1, model1, mesh1, md, prim)
     xc = 0.5 * (xf[1:] + xf[:-1])
     worst = 0.0
@@ -149,7 +161,7 @@ def check_nozzle(case):
     rE, q = _rhs(discE, modelE, meshE, emd, prim)
     if not all(np.all(np.isfinite(x)) for x in rE):
         sim.nonfinite_operator(case["num"])
-    modelN, meshN, discN = _operator(md, case, None)
+    modelN, meshN, discN = _operator(md, case, None, reuse=case.get("reuse_model", False))
     rN, _ = _rhs(discN, modelN, meshN, md, prim)
     rho, u, p = prim
     E = q[2]
@@ -204,7 +216,8 @@ def check_nozzle(case):
         tol2 = 1e-12 * (np.abs(rE2[0]) + np.abs(rN2[0])) / np.where(both, np.abs(F2), 1.0) + gtol + 1e-10 * gmax + 1e-300
         require(np.all(np.abs(g2 - gfac)[both] <= tol2[both]), "nozzle-factor-state-independent", "the geometric factor depends on the state")
     nontrivial = md["section"]["law"] != "const" and bool(np.any(moving))
-    return dict(nontrivial=nontrivial, labels=["law:" + md["section"]["law"], "num:" + case["num"]["name"], "mesh:" + case["mesh"]["kind"], "bc:" + case["bcL"]["type"]])
+    return dict(nontrivial=nontrivial, labels=["law:" + md["section"]["law"], "num:" + case["num"]["name"], "mesh:" + case["mesh"]["kind"], "bc:" + case["bcL"]["type"],
+                                               "model-reused" if case.get("reuse_model") else "model-fresh"])
 
 
 def _scaled(sec, c):
